@@ -8,6 +8,14 @@ FIX_COMMITS = ["98bc2de", "ed106f3", "491bd24", "dfb98ff", "3df74c4", "b3f789f",
 
 CHECKS = {
  # id: (engine, technique, level text, level note, design ref, has_thorough)
+ "C04": ("rsx", "rsx+z3: symbolic execution of S3ErrorCode::status_code over all enum variants against data/s3_error_codes.json, of ops::serialize_error + S3Error's XML impl on a symbolic error, and of every path of ops::call (error funnel, panic sites); malformed-request family on the real debug build",
+         "status = override ?? table ?? 500, headers = the error's, document = Error{Code, Message?, RequestId?} on every path; every error of prepare / operation / custom route reaches serialize_error on every one of ~25 000 paths; as_str/from_bytes tables consistent; ~1 200 malformed requests x configurations answered without panic on the debug build",
+         "panic freedom of request parsing is decided only inside the bounds of the Kani harnesses of the other properties; third-party parsers beyond those bounds are outside the claim",
+         "DESIGN.md 5/C04", False),
+ "C15": ("rsx", "rsx in precise mode: Message::serialize executed on symbolic byte strings of symbolic length with exact integer semantics (u8/u16/u32 conversions, checked usize additions) and CRC-32 uninterpreted; z3 (linear integer arithmetic) decides, field by field, equality with the frame the AWS event-stream specification prescribes and the exact Err condition; frames of the real build decoded by an independent decoder with a real CRC-32",
+         "0-3 headers, optional payload, every length symbolic up to 2^40: total/header lengths, prelude CRC over the first 8 bytes, header encoding (len8 name 0x07 len16 value), payload unchanged, message CRC over everything before; Err exactly when a name > 255, a value > 65535 or the total > 2^32-1; header sets of the five events as documented",
+         "library models of Vec::put_*, checked_add, try_from, try_fold (listed in the evidence, validated by the witness frames); crc32fast trusted",
+         "DESIGN.md 5/C15", False),
  "C05": ("rsx+kani", "source-level symbolic execution (rsx+z3) of every path of SignatureContext::check with SHA-256/HMAC uninterpreted; bounded model checking (Kani/CBMC) of the date / payload-mode parsers; reference-signed request family replayed on the real build",
          "identity is returned only behind a successful comparison with the signature computed under the provider's secret for the looked-up key, provider errors are returned, no provider => refused (all paths); AmzDate/AmzContentSha256 parsers over all 16-/64-byte inputs; the canonical request and key derivation are validated end to end (real crypto) by 33 reference-signed cases incl. single-component alterations and canonical-equivalent rewrites",
          "crypto uninterpreted/collision-free in solver queries; the canonical-request string builder is not decided symbolically (stated in the evidence)",
